@@ -606,6 +606,12 @@ func (a *tsRun) get(f *frame, v ssa.Value) val {
 	return unknown
 }
 
+func bump(m map[string]int8, k string) {
+	if m[k] < 2 {
+		m[k]++
+	}
+}
+
 func sign(n int64) int64 {
 	if n < 0 {
 		return -1
@@ -692,6 +698,12 @@ func (a *tsRun) run(s *tsState) {
 			v := a.get(f, in.Val)
 			if ad.k == kFieldAddr {
 				fi := int(ad.n)
+				if c.isIncrement(in, fi) {
+					bump(s.ghosts, "inc:"+c.fieldName(fi))
+				}
+				if bt, ok := c.St.Field(fi).Type().Underlying().(*types.Basic); ok && bt.Info()&types.IsInteger != 0 {
+					bump(s.ghosts, "st:"+c.fieldName(fi))
+				}
 				if r, isSink := c.SinkField[fi]; isSink {
 					// only the constructor may set a sink
 					if f.fn != c.Ctor {
@@ -772,6 +784,9 @@ func (a *tsRun) run(s *tsState) {
 				continue
 			}
 			label := c.condLabel(in.Cond)
+			if label != "" {
+				a.record(s, "dec:"+label, -1, -1, "", in)
+			}
 			for i := 0; i < 2; i++ {
 				n := s.clone()
 				nf := n.stack[len(n.stack)-1]
@@ -829,8 +844,29 @@ func (cellKey) Parent() *ssa.Function         { return nil }
 func (cellKey) Referrers() *[]ssa.Instruction { return nil }
 func (cellKey) Pos() token.Pos                { return token.NoPos }
 
+// isIncrement: the store writes field+1 back to the same field.
+func (c *Component) isIncrement(st *ssa.Store, fi int) bool {
+	bo, ok := st.Val.(*ssa.BinOp)
+	if !ok || bo.Op != token.ADD {
+		return false
+	}
+	for _, pair := range [][2]ssa.Value{{bo.X, bo.Y}, {bo.Y, bo.X}} {
+		if c.loadedField(pair[0]) == fi {
+			if cv, ok := pair[1].(*ssa.Const); ok && cv.Value != nil && cv.Value.Kind() == constant.Int {
+				if n, _ := constant.Int64Val(cv.Value); n == 1 {
+					return true
+				}
+			}
+		}
+	}
+	return false
+}
+
 // storeArg describes the stored value syntactically (used by census rules).
 func (a *tsRun) storeArg(f *frame, in *ssa.Store) string {
+	if fa, ok := in.Addr.(*ssa.FieldAddr); ok && a.C.isIncrement(in, fa.Field) {
+		return "+1"
+	}
 	v := a.get(f, in.Val)
 	if v.k != kUnknown {
 		return a.C.fieldValString(-1, v)
@@ -1254,6 +1290,7 @@ func (a *tsRun) atomicCall(s *tsState, f *frame, in *ssa.Call, name string, fi i
 			if eq.k == kBool {
 				if eq.n == 1 {
 					a.record(s, "store", -1, fi, "atomic-cas", in)
+					s.ghosts["cas:"+c.fieldName(fi)] = 1
 					dv, ok := c.toDomain(fi, a.get(f, cc.Args[2]))
 					if !ok {
 						a.undecided(in, "CompareAndSwap with a non-constant new value on tracked field "+c.fieldName(fi))
@@ -1372,6 +1409,7 @@ func (a *tsRun) sinkEvent(s *tsState, f *frame, in *ssa.Call, role int, m string
 		a.forkResult(s, in, errAlts, labels[:len(errAlts)], func(n *tsState, i int) {
 			if i == 0 {
 				n.sinks[role] = 1
+				n.ghosts["opened:"+rn] = 1
 			}
 		})
 		return true
